@@ -99,7 +99,7 @@ def trace_sig(ops):
         dest = posixpath.normpath(posixpath.join(posixpath.dirname(sp), st))
         if any(dp == dest or dp.startswith(dest + b"/") or dest.startswith(dp + b"/") for dp, _ in deferred):
             through = True
-    if lens_ok and through and kind in ("unlink", "symlink"):
+    if lens_ok and through and kind in ("unlink", "symlink", "mkdir"):
         return "deferred-link-through-safe-link"
     return "deferred-phase:" + kind + (":order" if not lens_ok else "")
 
@@ -150,6 +150,7 @@ def order_violation(calls, flat):
     """'dangerous symlinks come into existence only after every other entry has been written, longest path first'"""
     seen = False
     last_len = None
+    safe_links, danger_paths = {}, []
     for name, args, ret in calls:
         ok = ret not in ("?",) and not ret.startswith("-")
         if not ok:
@@ -164,10 +165,21 @@ def order_violation(calls, flat):
                 if seen and not flat and last_len is not None and len(pth) > last_len:
                     return "dangerous link %r created after a shorter one (longest path first)" % pth
                 seen, last_len = True, len(pth)
+                danger_paths.append(pth)
+            else:
+                safe_links[pth] = tg
             continue
         if name in ("unlink", "unlinkat"):
             continue                       # lha_arch_symlink removes what is in the way of each link
         if seen:
+            # known mechanism: the parent directories of a deferred link are made (make_parent_directories) through a
+            # safe link of the archive that points at the place of a dangerous link created just before
+            if name in ("mkdir", "mkdirat"):
+                pth = cstr(args) or b""
+                first = pth.split(b"/")[0]
+                if first in safe_links and any(d == safe_links[first] or d.startswith(safe_links[first] + b"/") for d in danger_paths):
+                    return "KNOWN:" + "%s(%s) through the safe link %r -> %r after the dangerous link %r exists" % (
+                        name, args[:80], first, safe_links[first], safe_links[first])
             return "%s(%s) after a dangerous symbolic link came into existence" % (name, args[:120])
     return None
 
@@ -260,9 +272,11 @@ def run(ctx):
                     n_danger += 1
                 bad = order_violation(calls, flat)
                 if bad:
+                    known = bad.startswith("KNOWN:")
                     viol.append({"property": PID, "kind": "dangerous-symlink-not-created-last", "case": l,
-                                 "argv": [x.decode("latin-1") for x in av], "what": bad,
-                                 "syscalls_tail": ["%s(%s) = %s" % c_ for c_ in calls[-8:]], "sig": "order"})
+                                 "argv": [x.decode("latin-1") for x in av], "what": bad[6:] if known else bad,
+                                 "syscalls_tail": ["%s(%s) = %s" % c_ for c_ in calls[-8:]],
+                                 "sig": "deferred-link-through-safe-link" if known else "order"})
         viol.sort(key=lambda v: len(v["case"]))
         cov = {"evaluations": sum(len(v) for v in fam.values()) + n_ord, "distinct_nontrivial": n_conf + n_ro,
                "rule": "invocations of the real tool in a jail: hand-built and generated archives with dangerous and safe links chained, "
